@@ -227,7 +227,7 @@ def spec(weights, coord):
                          placed('i', weights),
                          body_asserts={'k = keys[i]': dest_hints + [inj]}),
     }
-    return FnSpec(TSC, 'partition_parallel', prop='C17', name=f'partition_parallel[weights={weights},coord={coord}]',
+    return FnSpec(TSC, 'partition_parallel', prop='C17', auto_skolem=True, name=f'partition_parallel[weights={weights},coord={coord}]',
                   args=dict(pos='real[:,3]!ro', npartition='int', boxsize='real', weights='real[:]!ro' if weights else None,
                             coord=coord, nthread='int', sort=False),
                   ghosts=ghosts, requires=req, ensures=ens, frame=[], check_fits=True,
